@@ -180,6 +180,9 @@ static void dump_keys(void) {
   printf(" gen=");
   for (i = 0; i < myth_tls_n_keys; i++) if (G.ka.keys[i].gen) printf("%d:%u,", i, G.ka.keys[i].gen);
 #endif
+  /* the destructor column (tags in the keys / sys / conc cases): a deleted key has none */
+  printf(" dt=");
+  for (i = 0; i < myth_tls_n_keys; i++) if (G.ka.keys[i].destructor) printf("%d:%ld,", i, (long)(intptr_t)G.ka.keys[i].destructor);
 }
 
 /* ---------------- concurrent allocator, lock step ----------------
